@@ -156,7 +156,12 @@ def explore(ctx):
         except ValueError:
             pass
         # the same document as the text of another field
-        outer = json.dumps({'doc': t, 'other': 1})
+        # ... in a row that ALREADY has fields named like some of the document's members: the members must win
+        envelope = {'doc': t, 'other': 1}
+        for kk in list(v.keys())[:2]:
+            if kk not in ('doc',) and i % 2 == 0:
+                envelope[kk] = 'OLD'
+        outer = json.dumps(envelope)
         cases.append(Case('from%d' % i, STAR, [('json', None), ('json', col('doc')), ('fields', 'except', ['doc'])], [outer + '\n'], {'from'},
                           note={'want_row': dict({k: aggoracle.canon_in(x) for k, x in v.items()}, **({} if 'other' in v else {'other': 1}))}))
     # logfmt lines from pair lists (documented forms)
